@@ -60,6 +60,7 @@ def main():
             c = subprocess.run([os.path.join(VERIF, "check"), pid] + rest[1:], cwd=VERIF, env=env, capture_output=True, text=True)
             lines = [l for l in c.stdout.splitlines() if l.startswith(("VIOLATION", "KNOWN", "[", "  clause"))]
             print(f"CHECK {pid}: exit {c.returncode}")
+            print("\n".join(l for l in c.stderr.splitlines() if l.startswith("[build]")))
             print("\n".join(lines[-12:]))
             if c.returncode not in (0, 1):
                 print(c.stderr[-3000:])
